@@ -61,6 +61,9 @@ func symBytes(name string, n int, cs string) []value {
 	out := make([]value, n)
 	for i := range out {
 		b := newInput(fmt.Sprintf("%s[%d]", name, i), term.BV(8))
+		if cs != "" && cs != "any" {
+			symCharset[b] = charsetSet(cs)
+		}
 		addPC(charsetTerm(b, cs))
 		out[i] = symv{b, false}
 	}
